@@ -14,8 +14,10 @@ K_RESET = "resethand_window_disposition_default"
 K_STALE = "stale_signal_after_same_signum_restart"
 K_ONE0 = "oneshot_stopped_without_callback"
 K_ONECB = "oneshot_restart_inside_callback_stopped"
+K_REARM = "oneshot_rearm_same_signal_in_callback_stopped"
 FIXED = os.environ.get("VERIF_C13_FIXED", "1") == "1"   # compare against the model variant with the flag fix
 STALEFIX = os.environ.get("VERIF_C13_STALEFIX", "1") == "1"   # model variant fs: one-shot stop only after the callback
+RESTARTFIX = os.environ.get("VERIF_C13_RESTARTFIX", "0") == "1"   # model variant fr: stop after the callback only if still watching that signal
 
 
 # --------------------------------------------------------------------------
@@ -118,6 +120,7 @@ class Mon:
         self.q = []                 # outstanding messages (session, sig), FIFO
         self.old_at_start = []      # outstanding messages of earlier sessions when the session began
         self.in_own_cb_start = []
+        self.own_cb_sig = []         # signal of the handle's own callback inside which the session began
         self.race = {}              # sig -> a start happened while a caught one-shot watcher existed
         self.overflow = False
         self.cb_stack = []          # handle whose callback is running, session at entry
@@ -137,6 +140,7 @@ class Mon:
         self.cbs[h] = 0
         self.old_at_start[h] = len(self.q[h])
         self.in_own_cb_start[h] = bool(self.cb_stack and self.cb_stack[-1][0] == h)
+        self.own_cb_sig[h] = self.cb_stack[-1][2] if self.in_own_cb_start[h] else None
         if mode == "O":
             self.ever_one[h] = True
 
@@ -223,7 +227,10 @@ class Mon:
                              "handle %d started with uv_signal_start was stopped by libuv after %d callback(s)"
                              % (h, self.cbs[h]))
                 elif self.cbs[h] == 0:
-                    if self.in_own_cb_start[h]:
+                    if self.in_own_cb_start[h] and self.own_cb_sig[h] == self.sig[h]:
+                        self.bad(K_REARM, "one-shot handle %d re-armed (stop + start_oneshot) on the same signal inside "
+                                          "its own callback was stopped when that callback returned" % h)
+                    elif self.in_own_cb_start[h]:
                         self.bad(K_ONECB, "one-shot handle %d restarted inside its own one-shot callback was stopped "
                                           "when that callback returned, without a callback" % h)
                     else:
@@ -325,7 +332,8 @@ class Mon:
         elif k == "I":
             for lst, v in ((self.loop, args[0]), (self.sig, 0), (self.mode, "P"), (self.ever_one, False),
                            (self.closing, False), (self.closed, False), (self.caught, False), (self.cbs, 0),
-                           (self.sess, 0), (self.q, deque()), (self.old_at_start, 0), (self.in_own_cb_start, False)):
+                           (self.sess, 0), (self.q, deque()), (self.old_at_start, 0), (self.in_own_cb_start, False),
+                           (self.own_cb_sig, None)):
                 lst.append(v)
         elif k in "SO":
             self.on_start(args[0], args[1], "P" if k == "S" else "O", int(t[1:]))
@@ -352,7 +360,7 @@ class Mon:
                     self.on_snap(d, a)             # state between two messages (shows stops done by libuv)
                     self.on_cb(h, s)
                     ses = self.sess[h]
-                    self.cb_stack.append((h, ses))
+                    self.cb_stack.append((h, ses, s))
                     kk = self.cb_count
                     self.cb_count += 1
                     for o2 in (self.behs[kk] if kk < len(self.behs) else []):
@@ -395,7 +403,8 @@ def main():
     except vf.BuildError as e:
         chk.violation("build failed: %s" % str(e)[:300], {"kind": "build", "log": str(e)}, found_input=False)
         chk.finish(rule="build failed")
-    mcmd = [model] + (["fixed"] if FIXED else []) + (["stalefix"] if STALEFIX else [])
+    mcmd = [model] + (["fixed"] if FIXED else []) + (["stalefix"] if STALEFIX else []) + \
+        (["restartfix"] if RESTARTFIX else [])
 
     cdir = os.path.join(vf.VERIF, "corpus", "C13")
 
@@ -454,7 +463,7 @@ def main():
     chk.corr(name, len(cases))
     chk.cov["signal_callbacks_observed"] = ncb
     chk.cov["monitor_findings"] = reported
-    chk.cov["model_variant"] = {"flag_fix(fx)": FIXED, "stale_stop_fix(fs)": STALEFIX}
+    chk.cov["model_variant"] = {"flag_fix(fx)": FIXED, "stale_stop_fix(fs)": STALEFIX, "restart_in_cb_fix(fr)": RESTARTFIX}
     if cases:
         chk.sample({"case": cases[min(len(cases) - 1, 40)], "impl": a[min(len(cases) - 1, 40)]})
     chk.finish(
